@@ -424,8 +424,44 @@ def handleC11 (req : Json) : Json :=
       | _, _ => (false, "model did not generate both")
     Json.mkObj [("holds_impl", jb hi.1), ("why", js hi.2), ("holds_model", jb hm.1), ("why_model", js hm.2)]
 
+/-- op `ld`: run the linker semantics (Slinkyv.Ld) on a script text and an object table.
+request: script, objects = [[path, member|null, sec, size, align], …] in command-line order,
+defsyms = [[name, value], …]. -/
+def handleLd (req : Json) : Json :=
+  let ls := parseScript (s2t (getStr req "script"))
+  let objs : List Ld.InSec :=
+    match req.getObjVal? "objects" with
+    | .ok (.arr a) => a.toList.filterMap fun x =>
+        match x with
+        | .arr #[.str p, m, .str sec, .num sz, .num al] =>
+          some { path := s2t p, member := (match m with | .str mm => some (s2t mm) | _ => none),
+                 sec := s2t sec, size := sz.mantissa.toNat, align := al.mantissa.toNat }
+        | _ => none
+    | _ => []
+  let defs : List (Str × Nat) :=
+    match req.getObjVal? "defsyms" with
+    | .ok (.arr a) => a.toList.filterMap fun x =>
+        match x with
+        | .arr #[.str n, .num v] => some (s2t n, v.mantissa.toNat)
+        | _ => none
+    | _ => []
+  let im := Ld.link objs defs ls
+  let jn (n : Nat) : Json := .num ⟨Int.ofNat n, 0⟩
+  Json.mkObj [
+    ("stable", .bool (Ld.stable objs defs ls)),
+    ("emptied", .bool im.emptied),
+    ("syms", Json.mkObj (im.syms.filterMap fun kv => match kv.2 with | some v => some (t2s kv.1, jn v) | none => none)),
+    ("unresolved", .arr (im.syms.filterMap fun kv => match kv.2 with | none => some (Json.str (t2s kv.1)) | some _ => none).toArray),
+    ("secs", .arr (im.secs.map fun o => Json.mkObj [("name", .str (t2s o.name)), ("addr", jn o.addr), ("size", jn o.size),
+        ("lma", match o.lma with | some v => jn v | none => .null), ("noload", .bool o.noload), ("align", jn o.align)]).toArray),
+    ("placed", .arr (im.placed.map fun p => Json.arr #[.str (t2s p.inp.path),
+        (match p.inp.member with | some m => .str (t2s m) | none => .null), .str (t2s p.inp.sec), jn p.addr, .str (t2s p.out)]).toArray),
+    ("discarded", .arr (im.discarded.map fun i => Json.arr #[.str (t2s i.path),
+        (match i.member with | some m => .str (t2s m) | none => .null), .str (t2s i.sec)]).toArray)]
+
 def handle (req : Json) : Json :=
   match getStr req "op" with
+  | "ld" => handleLd req
   | "prune" => handlePrune req
   | "eqmod" => handleEqmod req
   | "files" => handleFiles req
